@@ -8,7 +8,9 @@ equivalent mutants and are triaged by hand.
 usage: tools/mutation_campaign.py [--workers 8] [--only file.py[:func]] [--limit N] [--out /tmp/mv/results.jsonl]
 Everything lives under /tmp/mv and is removed at the end except the result file."""
 import ast, copy, json, os, shutil, subprocess, sys, time, argparse, hashlib
-from concurrent.futures import ThreadPoolExecutor
+from concurrent.futures import ThreadPoolExecutor, as_completed
+import queue
+FREE = queue.Queue()
 
 REPO = "/repo"
 VERIF = os.path.dirname(os.path.dirname(os.path.abspath(__file__)))
@@ -162,7 +164,14 @@ def worker_setup(i):
 
 def run_mutant(args):
     i, m = args
-    v = f"{WORK}/v{i % NW}"
+    v = FREE.get()
+    try:
+        return _run_mutant(m, v)
+    finally:
+        FREE.put(v)
+
+
+def _run_mutant(m, v):
     r = f"{WORK}/r_{m['id']}"
     shutil.rmtree(r, ignore_errors=True)
     shutil.copytree(REPO, r, ignore=shutil.ignore_patterns(".git", "*.pyc", "__pycache__", "data"))
@@ -214,10 +223,17 @@ if __name__ == "__main__":
     NW = a.workers
     os.makedirs(WORK, exist_ok=True)
     for i in range(NW):
-        worker_setup(i)
+        FREE.put(worker_setup(i))
     done = 0
+    seen = set()
+    if os.path.exists(a.out):
+        seen = {json.loads(l)["id"] for l in open(a.out)}
+    ms = [m for m in ms if m["id"] not in seen]
+    print(len(ms), "to run", flush=True)
     with open(a.out, "a") as out, ThreadPoolExecutor(NW) as ex:
-        for m in ex.map(run_mutant, list(enumerate(ms))):
+        futs = [ex.submit(run_mutant, (i, m)) for i, m in enumerate(ms)]
+        for fu in as_completed(futs):
+            m = fu.result()
             out.write(json.dumps(m) + "\n"); out.flush(); done += 1
             if m["status"] != "killed":
                 print(done, m["status"], m["file"], m["func"], m["line"], m.get("change"), m.get("ran"), flush=True)
